@@ -1116,3 +1116,29 @@ def c11_m(ctx):
               "if optimize: state['last_GP_update'] = target_model.n_evidence",
               'the evidence count of the last optimisation is not recorded exactly when the '
               'surrogate was optimised', fn=up, node=st[0] if st else up.node)
+
+
+@obligation('C11-n', 'T6 T8', 'the predicates the submission gate reads mean what their names say: '
+            'has_pending = (number of pending batches > 0), counted over the pending map', floor=3,
+            necessary='the gate `no stored acquisition and has_pending` with a predicate that is '
+                      'true when nothing is pending acquires exactly while results are '
+                      'outstanding (schedule-dependent evidence) and stalls when none are')
+def c11_n(ctx):
+    bh = ctx.cls('elfi.client:BatchHandler')
+    defs = (('has_pending', ('self.num_pending > 0', '0 < self.num_pending',
+                             'len(self._pending_batches) > 0', 'self.num_pending != 0',
+                             'bool(self._pending_batches)')),
+            ('num_pending', ('len(self.pending_indices)', 'len(self._pending_batches)')),
+            ('pending_indices', ('self._pending_batches.keys()',)))
+    for (nm, pats) in defs:
+        m = bh.methods.get(nm)
+        if m is None or not m.is_property:
+            raise AnchorMissing('BatchHandler.{} property'.format(nm))
+        ctx.touch(m)
+        rr = returns(m)
+        falls = [p for (p, lab) in cfg_of(m).ret.pred
+                 if not (p.kind == 'stmt' and isinstance(p.ast, ast.Return))]
+        ok = len(rr) == 1 and not falls and \
+            match_any(ctx.ex(m).term(rr[0].value), pats) is not None
+        ctx.check(ok, m, 'predicate `{}`'.format(nm), pats[0],
+                  '`{}` is not `{}`'.format(nm, pats[0]), fn=m, node=rr[0] if rr else m.node)
